@@ -139,6 +139,19 @@ def _totality(case, ctx):
     n = len(cols[0][1]) if cols else 0
     if check_table_footer(ctx, foot, n, len(cols), t):
         return
+    if cols:
+        # "without changing the object": a column renamed through its view stays reachable under the new accessor after repr()
+        t.cols()[0].name = "zz_renamed"
+        ctx.ev()
+        r2, failed = _safe_repr(ctx, t, "table-after-rename", "repr after a rename through a column view")
+        if r2 is None:
+            return
+        try:
+            ok = t.zz_renamed is t.cols()[0]
+        except AttributeError as e:
+            return ctx.fail("totality/table/repr-changed-accessor-state", f"after col.name = 'zz_renamed' and repr(t): t.zz_renamed raises {e}")
+        if not ok:
+            return ctx.fail("totality/table/repr-changed-accessor-state", "t.zz_renamed is not column 0 after repr(t)")
     if case["peek"]:
         ctx.ev()
         try:
